@@ -129,6 +129,7 @@ type RunResult struct {
 	Named      map[string]int `json:"-"`
 	Infra      string         `json:"infra,omitempty"`
 	RaceFail   bool           `json:"race_fail,omitempty"`
+	EnumIndex  uint64         `json:"-"`
 }
 
 var epochBase = time.Date(2026, 3, 1, 0, 0, 0, 0, time.UTC)
@@ -159,6 +160,10 @@ func execRun(t *testing.T, sc *Scenario, tape *simrt.Tape, seed, run uint64, tie
 			defer sim.Close()
 			rc = &RunCtx{Prop: sc.Prop, Tape: tape, Sim: sim, Stats: res.Stats, Tier: tier, KnownHit: map[string]int{}}
 			rc.EnumIndex = enumIndexOf(run, len(scenarios[sc.Prop]))
+			if enumIndexOverride != nil {
+				rc.EnumIndex = *enumIndexOverride
+			}
+			res.EnumIndex = rc.EnumIndex
 			rc.Known = knownSigs
 			// per-run knobs, drawn first so that they head the tape
 			tape.Strategy = tape.Choose(3, "strategy")
@@ -319,7 +324,13 @@ type ReplayFile struct {
 	Schedule  []string    `json:"schedule,omitempty"`
 	Shrunk    bool        `json:"shrunk"`
 	OrigLen   int         `json:"original_tape_len"`
+	// EnumIndex: for scenarios that enumerate a space by run index, the index this run had
+	// (it depends on the number of workers of the search, which a replay does not know)
+	EnumIndex *uint64 `json:"enum_index,omitempty"`
 }
+
+// enumIndexOverride, when set, replaces the computed enumeration index (replays).
+var enumIndexOverride *uint64
 
 func findScenario(prop, name string) *Scenario {
 	for _, sc := range scenarios[prop] {
